@@ -12,7 +12,7 @@ from vv.core import Result, exc_violation, innermost_is_harness
 from vv.util import deq
 
 ID = 'C04'
-CASES = {'quick': 200, 'thorough': 3000}
+CASES = {'quick': 500, 'thorough': 30000}
 HANG_IS_VIOLATION = True
 RULE = ('(a) snapshot: C01-style schedules (1..4 processes sharing an '
         'accumulate variable, quiet polls, chunked calls, 0..2 steps) run with '
